@@ -166,7 +166,20 @@ def has_sym(a):
     return is_sym(a)
 
 
+def _real_dtype(dt):
+    """the sym-aware builtins stand for the types they replace when used as dtypes"""
+    nm = getattr(dt, "__name__", None)
+    if nm in ("b_int",):
+        return int
+    if nm in ("b_float",):
+        return float
+    if nm in ("b_complex",):
+        return complex
+    return dt
+
+
 def _is_float_dtype(dt):
+    dt = _real_dtype(dt)
     try:
         return rnp.issubdtype(rnp.dtype(dt), rnp.floating) or rnp.issubdtype(rnp.dtype(dt), rnp.complexfloating)
     except TypeError:
@@ -174,6 +187,7 @@ def _is_float_dtype(dt):
 
 
 def _is_int_dtype(dt):
+    dt = _real_dtype(dt)
     try:
         return rnp.issubdtype(rnp.dtype(dt), rnp.integer)
     except TypeError:
@@ -182,8 +196,14 @@ def _is_int_dtype(dt):
 
 def astype(a, dtype, **k):
     if not has_sym(a):
+        dtype = _real_dtype(dtype)
         return rnp.asarray(a).astype(dtype, **k) if rnp.asarray(a).dtype != object else _concrete_cast(a, dtype)
     if _is_int_dtype(dtype):
+        r = ctx.cur()
+        if r is not None and r.decisions is not None and getattr(r, "concretize_ints", False):
+            # fork mode: integer arrays become concrete (one path per feasible value), e.g. to be used as indices
+            flat = [(ctx.concretize_int(e.trunc().t) if isinstance(e, SR) else int(e)) for e in rnp.asarray(a, dtype=object).reshape(-1)]
+            return rnp.array(flat, dtype=rnp.int64).reshape(rnp.shape(a))
         return _map(lambda e: e.trunc() if isinstance(e, SR) else (int(e) if is_num(e) else e), a)
     out = rnp.array(a, dtype=object, copy=True).view(SymNd)
     return out
@@ -303,6 +323,7 @@ class NumpyShim:
 
     # ---- construction -----------------------------------------------------
     def empty(self, shape, dtype=None, **k):
+        dtype = _real_dtype(dtype)
         if dtype is not None and (_is_int_dtype(dtype) or dtype is object or dtype is bool):
             return rnp.empty(shape, dtype=dtype)
         a = rnp.empty(shape, dtype=object).view(SymNd)
@@ -310,6 +331,7 @@ class NumpyShim:
         return _Uninit.mark(a)
 
     def zeros(self, shape, dtype=None, **k):
+        dtype = _real_dtype(dtype)
         if dtype is not None and (_is_int_dtype(dtype) or dtype is bool):
             return rnp.zeros(shape, dtype=dtype)
         a = rnp.empty(shape, dtype=object).view(SymNd)
@@ -318,6 +340,7 @@ class NumpyShim:
         return a
 
     def ones(self, shape, dtype=None, **k):
+        dtype = _real_dtype(dtype)
         if dtype is not None and (_is_int_dtype(dtype) or dtype is bool):
             return rnp.ones(shape, dtype=dtype)
         a = rnp.empty(shape, dtype=object).view(SymNd)
@@ -325,6 +348,7 @@ class NumpyShim:
         return a
 
     def zeros_like(self, a, dtype=None, **k):
+        dtype = _real_dtype(dtype)
         if not has_sym(a) and not (isinstance(a, rnp.ndarray) and a.dtype == object):
             return rnp.zeros_like(a, dtype=dtype)
         cplx = (dtype is not None and _iscomplex(dtype)) or (dtype is None and any(isinstance(e, SC) for e in rnp.asarray(a, dtype=object).flat))
@@ -341,6 +365,7 @@ class NumpyShim:
         return self.zeros(rnp.shape(a))
 
     def array(self, a, dtype=None, copy=True, **k):
+        dtype = _real_dtype(dtype)
         if has_sym(a):
             if _is_int_dtype(dtype) if dtype is not None else False:
                 return astype(rnp.array(a, dtype=object), dtype)
@@ -349,6 +374,7 @@ class NumpyShim:
         return rnp.array(a, dtype=dtype, copy=copy, **k)
 
     def asarray(self, a, dtype=None, order=None, **k):
+        dtype = _real_dtype(dtype)
         if has_sym(a):
             if isinstance(a, rnp.ndarray):
                 if dtype is not None and _is_int_dtype(dtype):
@@ -594,6 +620,7 @@ class NumpyShim:
 
 
 def _iscomplex(dt):
+    dt = _real_dtype(dt)
     try:
         return rnp.issubdtype(rnp.dtype(dt), rnp.complexfloating)
     except TypeError:
